@@ -381,7 +381,10 @@ class SiteAnalysis:
             target = leaf.ty
             present = {key for (p, key), val in w.keys.items() if p == leaf.path and val is True and isinstance(key, str)}
             absent = frozenset(key for (p, key), val in w.keys.items() if p == leaf.path and val is False and isinstance(key, str))
-            r = self.shapes.sub(v, target, False, present, absent)
+            # alternatives already chosen on this path for direct children of the value (world constraints)
+            narrow = {pth[-1]: ty for pth, ty in w.alt.items()
+                      if len(pth) == len(leaf.path) + 1 and pth[:-1] == leaf.path and isinstance(pth[-1], str)}
+            r = self.shapes.sub(v, target, False, present, absent, None, narrow)
             if r:
                 issues.append(("unsound", f"structure(_, {show(target)}) on a {show(v)} value: {r}"))
                 if " requires '" not in r:
@@ -389,7 +392,7 @@ class SiteAnalysis:
                     issues.append(("miscoerce", f"structure(_, {show(target)}) on a {show(v)} value succeeds by "
                                                 f"coercion although the value is not valid for it: {r}"))
             else:
-                r2 = self.shapes.sub(v, target, True, present, absent)
+                r2 = self.shapes.sub(v, target, True, present, absent, None, narrow)
                 if r2:
                     issues.append(("lossy", f"structure(_, {show(target)}) on a {show(v)} value: {r2}"))
             if leaf.path == root and not (members(target) <= members(U)):
@@ -448,6 +451,13 @@ class SiteAnalysis:
                     if guard > 2000:
                         raise AnalysisError(f"{ev.rel}: world explosion in comprehension of {ev.name}")
                     try:
+                        infeasible = False
+                        for cnode, cvar, ctruth in w.elem.get(leaf.path, []):
+                            r = ev._decide(cnode, w2, {cvar: item_root, leaf.var: item_root})
+                            if isinstance(r, bool) and r != ctruth:
+                                infeasible = True
+                        if infeasible:
+                            continue
                         sub_leaf = ev._leaf(leaf.elt, w2, {leaf.var: item_root})
                         elem_U = mk_union([m[1] for m in seq_members]) if seq_members else ANY
                         sub_issues = self.judge(ev, site, e_alt, w2, sub_leaf, U=elem_U, root=item_root)
